@@ -96,7 +96,7 @@ func (e *Env) eval(x Expr) Binding {
 	case EIdent:
 		return e.ident(x.Name)
 	case EGhost:
-		return Binding{c.ghost(e.st, x.Name), nil}
+		return Binding{c.ghost(e.st, x.Name), c.ghostGoType(x.Name)}
 	case EOld:
 		if e.old == nil {
 			evalFail("old() not available here")
@@ -197,7 +197,11 @@ func (e *Env) ident(name string) Binding {
 	}
 	if sf, ok := c.V.CS.Specs[name]; ok && len(sf.Params) == 0 {
 		c.declareSpec(sf, e)
-		return Binding{Term{"spec_" + name, c.specSort(sf.Ret, e.pkg)}, nil}
+		spkg := e.pkg
+		if dp := c.declPkg(sf.Pkg); dp != nil {
+			spkg = dp
+		}
+		return Binding{Term{"spec_" + name, c.specSort(sf.Ret, spkg)}, nil}
 	}
 	if e.pkg != nil {
 		if obj := e.pkg.Scope().Lookup(name); obj != nil {
@@ -584,12 +588,29 @@ func (c *Ctx) specSort(name string, pkg *types.Package) string {
 
 // ---- ghost variables ------------------------------------------------------------------
 
+// declPkg returns the types.Package a contract file's package path refers to (nil for specs).
+func (c *Ctx) declPkg(path string) *types.Package {
+	if p := c.V.P.ByPath[path]; p != nil {
+		return p.Types
+	}
+	return nil
+}
+
+func (c *Ctx) ghostGoType(name string) types.Type {
+	gd, ok := c.V.CS.Ghosts[name]
+	if !ok {
+		return nil
+	}
+	ty, _ := c.resolveType(gd.Type, c.declPkg(gd.Pkg))
+	return ty
+}
+
 func (c *Ctx) ghostEntry(name string) Term {
 	gd, ok := c.V.CS.Ghosts[name]
 	if !ok {
 		evalFail("undeclared ghost variable $%s", name)
 	}
-	_, srt := c.resolveType(gd.Type, nil)
+	_, srt := c.resolveType(gd.Type, c.declPkg(gd.Pkg))
 	n := "g_" + name + "@0"
 	c.declare(n, srt)
 	return Term{n, srt}
@@ -623,15 +644,19 @@ func (c *Ctx) declareSpec(sf *SpecFunc, e *Env) {
 	}
 	var psorts []string
 	var pdecl []string
-	env := &Env{c: c, pkg: e.pkg, vars: map[string]Binding{}, st: e.st}
+	spkg := e.pkg
+	if dp := c.declPkg(sf.Pkg); dp != nil {
+		spkg = dp
+	}
+	env := &Env{c: c, pkg: spkg, vars: map[string]Binding{}, st: e.st}
 	for _, p := range sf.Params {
-		ty, srt := c.resolveType(p.Type, e.pkg)
+		ty, srt := c.resolveType(p.Type, spkg)
 		psorts = append(psorts, srt)
 		pn := "a_" + sanitizeIdent(p.Name)
 		pdecl = append(pdecl, fmt.Sprintf("(%s %s)", pn, srt))
 		env.vars[p.Name] = Binding{Term{pn, srt}, ty}
 	}
-	ret := c.specSort(sf.Ret, e.pkg)
+	ret := c.specSort(sf.Ret, spkg)
 	if sf.Body == nil {
 		c.declareFun(name, psorts, ret)
 		return
@@ -839,9 +864,13 @@ func (e *Env) call(x ECall) Binding {
 			evalFail("spec func %s: arity", x.Fun)
 		}
 		var args []Term
+		spkg := e.pkg
+		if dp := c.declPkg(sf.Pkg); dp != nil {
+			spkg = dp
+		}
 		for i := range x.Args {
 			a := arg(i)
-			_, want := c.resolveType(sf.Params[i].Type, e.pkg)
+			_, want := c.resolveType(sf.Params[i].Type, spkg)
 			if isUntypedNil(a.Ty) {
 				a = Binding{e.nilOf(Binding{Term{"", want}, nil}), nil}
 			}
@@ -850,7 +879,7 @@ func (e *Env) call(x ECall) Binding {
 			}
 			args = append(args, a.T)
 		}
-		rt, rs := c.resolveType(sf.Ret, e.pkg)
+		rt, rs := c.resolveType(sf.Ret, spkg)
 		return Binding{app(rs, "spec_"+x.Fun, args...), rt}
 	}
 	evalFail("unknown function %s in contract", x.Fun)
